@@ -237,6 +237,9 @@ class MTr:
         op, l, r = e.ops[0], e.left, e.comparators[0]
         if isinstance(op, ast.In) and isinstance(l, ast.Constant) and l.value == "hibernation" and dotted(r) == "self.config.options" and self.ctx == "tree":
             return V("(hib_on c)", "bool")
+        if isinstance(op, (ast.In, ast.NotIn)) and isinstance(l, ast.Constant) and l.value == "hibernation" and self.ctx == "tree" and isinstance(r, ast.Name) \
+                and isinstance(env.get(r.id), V) and env[r.id].ty == "options":
+            return V("(hib_on c)" if isinstance(op, ast.In) else "(negb (hib_on c))", "bool")
         a, b = self._expr(l, env, pre), self._expr(r, env, pre)
         if isinstance(op, ast.In) and a.ty == "deme" and b.ty == "cmap":
             return V(f"(in_seeds {b.code} {a.code})", "bool")
@@ -262,6 +265,10 @@ class MTr:
                 return V(f"(gen_active_demes c (demes {self.read(pre)}))", "ld_list")
             if d == "self.active_non_leaves":
                 return V(f"(gen_active_non_leaves c (demes {self.read(pre)}))", "ld_list")
+            if d == "self.config.options":
+                return V("", "options")          # the options dictionary (only "hibernation" is modelled)
+            if d == "self.config.levels":
+                return V("", "levelscfg")        # the list of level configurations
         if self.ctx == "deme" and d is not None:
             if d in ("self._generations", "self.generations"):
                 return V(f"(gens_of c (d_lvl (dnth d (demes {self.read(pre)}))))", "nat")
@@ -284,6 +291,8 @@ class MTr:
 
     def subscript(self, e, env, pre):
         d = dotted(e.value)
+        if isinstance(e.value, ast.Name) and isinstance(env.get(e.value.id), V) and env[e.value.id].ty in ("options", "levelscfg"):
+            d = "self.config.options" if env[e.value.id].ty == "options" else "self.config.levels"     # a local holding that object
         if self.ctx == "tree" and d in ("self.levels", "self._levels"):
             i = self._expr(e.slice, env, pre)
             if i.ty != "nat":
@@ -507,7 +516,7 @@ class MTr:
             env = dict(env)
             if isinstance(t, ast.Name):
                 pre, v = self.expr(s.value, env)
-                if v.ty in ("opaque", "childid"):
+                if v.ty in ("opaque", "childid", "options", "levelscfg"):
                     env[t.id] = v
                     return " ".join(pre) + " " + go(env)
                 if not pre and v.ty in ("bool", "nat") and not re.search(r"\b(s\d+|v_\w+|it\d+|n\d+|b\d+|ch\d+|x\d+)\b", v.code):
